@@ -34,9 +34,16 @@ RULE = ("random cases: one of the 15 operations x backend (NumPy array / xarray 
         "without coordinates) x 1-6 integer arrays of rank 0-3 and extents 1-3 (values -4..4) x axis/dim argument (absent, every "
         "position, negative, as name, out of range) x int / list / ndarray indices (incl. negative and out of range); for the variadic "
         "reductions and concat additionally EVERY cut of the k arguments into >= 2 consecutive batches (2^(k-1)-1 cuts). "
+        "About a quarter of the cases (every one of pow, multiply, add, subtract, sum, prod, max, min, stack, concat, take on every "
+        "backend, incl. scalar-operand, nested and multi-argument forms and all batch cuts) carry int64 magnitudes around 2^53, "
+        "around powers of two and near the largest value for which the exact result (and every partial result) still fits in "
+        "int64; integer results are compared exactly as Python ints (never through float64) and the integer-ness of the result "
+        "dtype must equal NumPy's. "
         "non-trivial = the arguments hold >= 2 distinct values and (k >= 2 or rank >= 1); distinct by content hash of the case")
 ASSUMPTIONS = [
-    "integer input data small enough that int64 does not overflow; divisors non-zero; no NaN/inf; exponents of pow are integers",
+    "integer input data (int64) such that no exact result or partial result leaves int64 (magnitudes up to 2^63-1 are generated "
+    "for the operations whose NumPy result is an integer; mean/std/var/divide only see small values); divisors non-zero; no NaN/inf; "
+    "exponents of pow are integers",
     "floats returned by the implementation (mean/std/var/divide) are mapped to the nearest fraction with denominator <= 10^6 and must "
     "be within 1e-9 of it (std: its square); the NumPy oracle compares floats with rtol=atol=1e-12",
     "arguments of one call have equal shapes (concat: equal except along the axis); a Python scalar is allowed as one operand of the "
@@ -316,12 +323,21 @@ def _same(got, exp):
     got, exp = np.asarray(got), np.asarray(exp)
     if got.shape != exp.shape:
         return "shape %s, NumPy gives %s" % (got.shape, exp.shape)
-    if exp.dtype.kind in "iu":      # integer result: exact
-        if got.dtype.kind not in "iuf" or not np.array_equal(got, exp):
+    if exp.dtype.kind in "iu":      # integer result: exact, as Python ints (never through float64: a float equals an int
+        # in Python only if it has exactly that value, whereas NumPy would first round the int64 to float64)
+        if got.dtype.kind not in "iuf" or got.reshape(-1).tolist() != exp.reshape(-1).tolist():
             return "values %s, NumPy gives %s" % (got.tolist(), exp.tolist())
         return None
     if not np.allclose(got.astype(float), exp.astype(float), rtol=1e-12, atol=1e-12, equal_nan=False):
         return "values %s, NumPy gives %s" % (got.tolist(), exp.tolist())
+    return None
+
+
+def _dtype_diff(got, exp):
+    """integer data in: the result is of an integer type exactly when NumPy's is"""
+    got, exp = np.asarray(got), np.asarray(exp)
+    if (got.dtype.kind in "iu") != (exp.dtype.kind in "iu"):
+        return "result dtype %s, NumPy gives %s" % (got.dtype, exp.dtype)
     return None
 
 
@@ -356,6 +372,10 @@ def oracle(case, status, val):
             else:
                 what += " (axis=%s index=%s): %s" % (case.get("axis"), case.get("index"), diff)
             return ({"kind": kind, "op": op, "backend": be}, what)
+        dd = _dtype_diff(val[vi], exp)
+        if dd:
+            return ({"kind": "dtype", "op": op, "backend": be},
+                    "%s on %s%s for int64 input: %s" % (op, be, " batched %s" % case["batches"] if batched else "", dd))
     return None
 
 
@@ -513,6 +533,157 @@ def gen_case(rng, op=None, backend=None):
             case["args2"] = [other(case["args"][0]), case["args"][1]]   # keep divisor / exponent in the domain
         else:
             case["args2"] = [other(a) for a in case["args"]]
+    return case
+
+
+# --- integer magnitudes near and beyond 2^53 (exact in int64, not representable in float64) -----------------------
+# The shapes / axis / index / backend structure comes from gen_case; only the VALUES are replaced, chosen per operation
+# so that the exact result and every intermediate result of a batched evaluation fit in int64 (no overflow).
+
+I64 = 2 ** 63 - 1
+P53 = 2 ** 53
+BIG_OPS = ["pow", "multiply", "add", "subtract", "sum", "prod", "max", "min", "stack", "concat", "take"]
+
+
+def _iroot(n, m):
+    """largest b with b**m <= n"""
+    if m <= 1:
+        return n
+    b = int(round(n ** (1.0 / m)))
+    while b ** m > n:
+        b -= 1
+    while (b + 1) ** m <= n:
+        b += 1
+    return b
+
+
+def _bigval(rng, bound):
+    """an integer of magnitude <= bound: around 2^53, near the bound, around a power of two, or small"""
+    r = rng.random()
+    if r < 0.3:
+        v = P53 + rng.randint(-4, 12)
+    elif r < 0.65:
+        v = rng.randint(bound - bound // 3, bound)
+    elif r < 0.9:
+        v = (1 << rng.randint(0, max(bound.bit_length() - 1, 0))) + rng.randint(-3, 3)
+    else:
+        v = rng.randint(0, 9)
+    v = max(0, min(v, bound))
+    return -v if rng.random() < 0.4 else v
+
+
+def _pow_exp(rng, base):
+    """an exponent e >= 0 with |base|^e <= I64: near the largest one, around the 2^53 crossing, or any"""
+    m = abs(base)
+    if m <= 1:
+        return rng.randint(0, 62)
+    emax, e53 = 0, None
+    while m ** (emax + 1) <= I64:
+        emax += 1
+        if e53 is None and m ** emax > P53:
+            e53 = emax
+    pick = [emax, emax, max(emax - 1, 0), rng.randint(0, emax)]
+    if e53 is not None:
+        pick += [e53, e53, max(e53 - 1, 0)]
+    return rng.choice(pick)
+
+
+def _pow_base(rng, e=None):
+    """a base for exponent e (None: any; the exponent is then drawn by _pow_exp)"""
+    if e is None:
+        r = rng.random()
+        if r < 0.7:
+            b = rng.choice([2, 3, 3, 5, 6, 7, 7, 10, 11, 13, 15, 21, 0, 1])
+        elif r < 0.85:
+            b = rng.randint(2, 2000)
+        else:
+            b = _bigval(rng, _iroot(I64, rng.choice([1, 2, 2, 3, 4, 5])))
+    else:
+        bound = _iroot(I64, e) if e >= 1 else I64
+        b = _bigval(rng, bound) if rng.random() < 0.8 else rng.randint(0, min(bound, 12))
+    return -abs(b) if rng.random() < 0.3 else abs(b)
+
+
+def _mul_other(rng, a):
+    """b with |a*b| <= I64, preferably |a*b| > 2^53"""
+    if a == 0:
+        return _bigval(rng, I64)
+    return _bigval(rng, I64 // abs(a))
+
+
+def _pair(rng, op, a=None, b=None):
+    """operands (a, b) of one elementwise application; a given side (scalar operand of the call) is kept"""
+    if op == "pow":
+        if b is None and a is None:
+            a = _pow_base(rng)
+            return a, _pow_exp(rng, a)
+        if b is None:
+            return a, _pow_exp(rng, a)
+        return (_pow_base(rng, b) if a is None else a), b
+    if op == "multiply":
+        if a is None and b is None:
+            a = _bigval(rng, 1 << rng.randint(1, 62))
+        if b is None:
+            return a, _mul_other(rng, a)
+        return (_mul_other(rng, b) if a is None else a), b
+    bound = 2 ** 62 - 1                # add / subtract: any two such values give a result inside int64
+    return (_bigval(rng, bound) if a is None else a), (_bigval(rng, bound) if b is None else b)
+
+
+def _fill_binary(rng, op, a, b):
+    """new values for the operand structures a, b (nested list or int), elementwise compatible"""
+    if isinstance(a, list) and isinstance(b, list):
+        ps = [_fill_binary(rng, op, x, y) for x, y in zip(a, b)]
+        return [p[0] for p in ps], [p[1] for p in ps]
+    if isinstance(a, list):
+        return [_fill_binary(rng, op, x, b)[0] for x in a], b
+    if isinstance(b, list):
+        return a, [_fill_binary(rng, op, a, y)[1] for y in b]
+    return _pair(rng, op, a, b)
+
+
+def _numel(sh):
+    n = 1
+    for x in sh:
+        n *= x
+    return n
+
+
+def gen_big_case(rng, op=None, backend=None):
+    op = op or rng.choice(BIG_OPS + ["pow", "multiply", "sum", "prod"])
+    case = gen_case(rng, op, backend)
+    case["big"] = True
+    keys = ["args"] + (["args2"] if case.get("args2") else [])
+    if op in BINARY:
+        a0, b0 = case["args"]
+        # the scalar operand (if any) is one value for the whole call (and both Dataset variables)
+        sa = sb = None
+        if not isinstance(a0, list):
+            sa = _pow_base(rng) if op == "pow" else _bigval(rng, 1 << rng.randint(1, 40)) if op == "multiply" else _bigval(rng, 2 ** 62 - 1)
+        if not isinstance(b0, list):
+            sb = rng.choice([0, 1, 2, 2, 3, 3, 4, 5, 7, 13, 31, 62]) if op == "pow" else \
+                _bigval(rng, 1 << rng.randint(1, 40)) if op == "multiply" else _bigval(rng, 2 ** 62 - 1)
+        for key in keys:
+            blank = lambda x: _map_vals(x, lambda v: None)      # None = draw this element anew
+            a, b = _fill_binary(rng, op, blank(a0) if sa is None else sa, blank(b0) if sb is None else sb)
+            case[key] = [a, b]
+        return case
+    # number of values that meet in one output element
+    k = len(case["args"])
+    sh = _shape_of(case["args"][0])
+    ax = case.get("axis")
+    if op in ("sum", "prod"):
+        if k >= 2:
+            m = k
+        elif ax is not None and -len(sh) <= ax < len(sh):
+            m = sh[ax]
+        else:
+            m = _numel(sh)
+        bound = I64 // max(m, 1) if op == "sum" else _iroot(I64, max(m, 1))
+    else:
+        bound = I64
+    for key in keys:
+        case[key] = [_map_vals(a, lambda v: _bigval(rng, bound)) for a in case[key]]
     return case
 
 
@@ -679,8 +850,13 @@ def _cases(ctx, n):
         for be in ("np", "da", "ds"):
             for _ in range(2):
                 cases.append(gen_case(ctx.rng, op, be))
+    # integer magnitudes around and beyond 2^53 (exact in int64 only): every such operation on every backend
+    for op in BIG_OPS:
+        for be in ("np", "da", "ds"):
+            for _ in range(ctx.budget(4, 30)):
+                cases.append(gen_big_case(ctx.rng, op, be))
     while len(cases) < n:
-        cases.append(gen_case(ctx.rng))
+        cases.append(gen_big_case(ctx.rng) if ctx.rng.random() < 0.15 else gen_case(ctx.rng))
     return cases
 
 
@@ -704,6 +880,11 @@ def _evaluate(ctx, cases, with_model):
             ctx.count("with_coords")
         if base["op"] == "take":
             ctx.count("take_index:" + base["index_type"])
+        if base.get("big"):
+            ctx.count("big_int64")
+            ctx.count("big_int64:" + base["op"])
+            if any(abs(v) > P53 for key in ("args", "args2") for a in (base.get(key) or []) for v in _flat(a)):
+                ctx.count("big_operand_beyond_2^53")
         for c in variants:
             st, val = run_impl(c)
             if c.get("batches"):
@@ -798,8 +979,12 @@ def search(ctx, why):
             cases.append(base)
             for _ in range(40):
                 cases.append(gen_case(ctx.rng, c["op"], c.get("backend")))
+    for op in BIG_OPS:
+        for be in ("np", "da", "ds"):
+            for _ in range(10):
+                cases.append(gen_big_case(ctx.rng, op, be))
     for _ in range(ctx.budget(400, 4000)):
-        cases.append(gen_case(ctx.rng))
+        cases.append(gen_big_case(ctx.rng) if ctx.rng.random() < 0.2 else gen_case(ctx.rng))
     ctx.notes.append("violation search: %d extra cases (marked now: %s)" % (len(cases), marked))
     _evaluate(ctx, cases, with_model=False)
 
